@@ -35,10 +35,6 @@ size_t gb; /* ghost byte */
 #define RET_OK (__CPROVER_return_value.h == 0 && __CPROVER_return_value.n <= 2 * CAP && vf_exc == 0)
 
 seq_t shift_and_frame_private_blocks(seq_t* vec, unsigned long offset, unsigned long buff_size)
-#ifdef C35_EXCLUDE_FINDING /* known finding: `block_begin - offset` wraps for a block that starts before the message */
-#define NOT_BEFORE(k) (!((k) < g_s1.n) || g_v1[k].first >= offset)
-    __CPROVER_requires(ALL3(NOT_BEFORE))
-#endif
     __CPROVER_requires(vec == &g_s1 && SEQ_IS(g_s1, g_v1) && ALL3(WF1) && offset <= BIG && buff_size <= BIG && vf_exc == 0)
     __CPROVER_assigns()
     __CPROVER_ensures(RET_OK)
@@ -76,7 +72,7 @@ static void setup(void)
   __CPROVER_assume(g_s1.n <= CAP && g_s2.n <= CAP);
   vf_exc = 0;
 }
-#if defined(H_shift) || defined(H_shift_outside_finding)
+#ifdef H_shift
 void harness(void)
 {
   setup();
